@@ -276,5 +276,33 @@ func deadlockSignature(dump string) string {
 	if waitingRollback && procBlocked {
 		return "verification caller waits for the chain's rollback reply while the block processor waits for the finality lock"
 	}
+	// any goroutine of the node that has been waiting for a lock, or to hand over a value, for a
+	// minute or more (the operations under these locks take milliseconds): the header of a dumped
+	// goroutine reads "goroutine 12 [sync.Mutex.Lock, 1 minutes]:"
+	for _, g := range strings.Split(dump, "\n\n") {
+		nl := strings.IndexByte(g, '\n')
+		if nl < 0 || !strings.HasPrefix(g, "goroutine ") {
+			continue
+		}
+		head := g[:nl]
+		lb, rb := strings.IndexByte(head, '['), strings.IndexByte(head, ']')
+		if lb < 0 || rb < lb || !strings.Contains(head[lb:rb], " minutes") {
+			continue
+		}
+		st := head[lb+1 : rb]
+		blockedOnLock := strings.HasPrefix(st, "sync.Mutex.Lock") || strings.HasPrefix(st, "sync.RWMutex.") || strings.HasPrefix(st, "semacquire") || strings.HasPrefix(st, "chan send")
+		if !blockedOnLock {
+			continue
+		}
+		for _, line := range strings.Split(g[nl+1:], "\n") {
+			if strings.HasPrefix(line, "github.com/bytom/bytom/protocol") {
+				fn := line
+				if i := strings.IndexByte(fn, '('); i > 0 && strings.HasPrefix(fn[i:], "(0x") {
+					fn = fn[:i]
+				}
+				return fmt.Sprintf("a goroutine has been blocked in %s [%s]", strings.TrimPrefix(fn, "github.com/bytom/bytom/"), st)
+			}
+		}
+	}
 	return ""
 }
